@@ -688,7 +688,14 @@ def gen_times(rng, u, kind=None):
         cur += rng.choice([1, 1, 2, 3]) if kind == "strict" else rng.choice([0, 0, 1, 2])
     if kind == "unsorted":
         rng.shuffle(ks)
-    return {"p": [k * g for k in ks], "u": u, "sc": False}, g
+    shift = big_shift(rng) if rng.random() < 0.2 else 0
+    return {"p": [k * g + shift for k in ks], "u": u, "sc": False}, g
+
+
+def big_shift(rng):
+    """a picosecond offset beyond the float64 integer range (2^53 ps ~ 2.5 h) but far inside int64:
+    arithmetic done in floats instead of int64 shows up there"""
+    return rng.choice([-1, 1]) * (2 ** rng.randint(53, 60) + rng.randint(-5, 5))
 
 
 def gen_instant(rng, p, g):
@@ -817,11 +824,14 @@ def gen_axis_build(rng):
     """a constructor call of UniformTime; most are well-formed (integer-picosecond interval)"""
     u = gen_unit(rng)
     f = FACT[u]
-    n = rng.randint(1, 9)
+    n = rng.randint(1, 9) if rng.random() < 0.9 else rng.randint(10, 40)
     r = rng.random()
     t0 = rng.choice([0, 0, -3, 2, 5, -7])
     t0arg = rng.choice([t0, float(t0) + rng.choice([0.0, 0.5, 0.25])]) if rng.random() < 0.7 else \
         {"kind": "time", "t": {"p": [t0 * f + rng.randint(-5, 5)], "u": other_unit(rng, u), "sc": True}}
+    if rng.random() < 0.2:      # far from 0: beyond 2^53 ps
+        t0arg = {"kind": "time", "t": {"p": [big_shift(rng)], "u": other_unit(rng, u), "sc": True}}
+        r = 0.4 + 0.3 * rng.random()        # interval given as a whole number of picoseconds
     if r < 0.4:
         dt = rng.choice([1, 2, 3, 5, 10])
         kw = {"length": n, "sampling_interval": dt, "t0": t0arg, "time_unit": u}
@@ -846,12 +856,14 @@ def gen_axis_build(rng):
 def gen_series(rng):
     u = gen_unit(rng)
     f = FACT[u]
-    n = rng.randint(1, 9)
+    n = rng.randint(1, 9) if rng.random() < 0.9 else rng.randint(10, 40)
     lead = rng.choice([[], [], [2], [3], [2, 2], [1], [2, 3]])
     shape = lead + [n]
     tot = int(np.prod(shape))
     dt = rng.choice([f, 2 * f, f // 4 if f > 3 else 3, 7, 813270000001, 3 * f, rng.randint(1, 10 ** 6)])
     t0 = rng.choice([0, 0, -3 * dt, 5 * dt + rng.randint(0, 3), -f - 1, 2 * f])
+    if rng.random() < 0.2:
+        t0 = big_shift(rng)
     return {"data": [rng.randint(-99, 99) for _ in range(tot)], "shape": shape, "dt": dt, "t0": t0, "u": u}
 
 
